@@ -146,7 +146,8 @@ if __name__ == '__main__':
         if '--wt' in a:
             wt = a[a.index('--wt') + 1]
         sd = os.path.join(V, 'seeded')
-        for i in sorted(os.listdir(sd)):
+        only = [x for x in a[1:] if not x.startswith('--') and x != wt]
+        for i in (only or sorted(os.listdir(sd))):
             mp = os.path.join(sd, i, 'meta.json')
             if not os.path.exists(mp):
                 continue
